@@ -252,6 +252,8 @@ class JointRecurrencePlot(RecurrencePlot):
         if self.silence_level <= 1:
             print("Calculating joint recurrence plot at fixed threshold...")
 
+        self.threshold = tuple(threshold)
+
         self.embedding = self.x_embedded
         distance = self.distance_matrix(self.metric[0])
         N = distance.shape[0]
@@ -327,6 +329,8 @@ class JointRecurrencePlot(RecurrencePlot):
         recurrence_y = np.zeros((N, N), dtype="int8")
         recurrence_y[distance < threshold_y] = 1
         del distance
+
+        self.threshold = (threshold_x, threshold_y)
 
         if self.lag >= 0:
             self.JR = recurrence_x[:N-self.lag, :N-self.lag] * \
